@@ -760,7 +760,12 @@ class VarsManager(object):
         for name in self.complex_vars:
             self.std_polar(name)
 
-    def standard_complex(self):
+    def standard_complex(self, bounded=()):
+        """
+        Standardise polar parameters to r >= 0, -pi <= phi < pi.
+
+        :param bounded: names with a bound that is not (or no longer) in ``self.bnd_dic``; such components are left as they are.
+        """
         for k, v in self.complex_vars.items():
             ## TODO complex with constrains
             if isinstance(v, list):
@@ -771,9 +776,9 @@ class VarsManager(object):
             for i in self.same_list:
                 if k + "r" in i or k + "i" in i:
                     has_constrains = True
-            if k + "r" in self.bnd_dic:
+            if k + "r" in self.bnd_dic or k + "r" in bounded:
                 has_constrains = True
-            if k + "i" in self.bnd_dic:
+            if k + "i" in self.bnd_dic or k + "i" in bounded:
                 has_constrains = True
             if has_constrains:
                 continue
